@@ -5,14 +5,19 @@
 
   What is proved: everything about *histories* (any length) of the sequential model, the refinement to the
   atomic-map specification, the aliasing statement about `QueryName`'s result on the slice/heap model, the
-  lock discipline of the source (extracted facts, `decide`), and the correctness of the linearizability
-  checker that the harness applies to recorded concurrent executions.
-  What is NOT proved (partial, see props_config): Go's scheduler is not modelled; that a method call is
-  one atomic step is an assumption justified by the lock facts below + the contract of `sync.RWMutex`;
-  data races are searched for by the race detector, not excluded.
+  lock discipline of the source (extracted facts, `decide`), the correctness of the linearizability
+  checker that the harness applies to recorded concurrent executions, and — `Props/C17Locks.lean` and §6
+  below — that under a readers–writer lock with Go's enabling conditions EVERY interleaving of the methods'
+  micro-steps, for any number of threads, is equivalent to a sequential history
+  (`rwlock_mutual_exclusion`, `rwlock_serializable`, `name_table_linearizable_under_lock_discipline`).
+  What is assumed (see props/C17.py, DESIGN.md §6): that `sync.RWMutex` has the enabling conditions of
+  `RWLock.Lock.canAcquire` (write: nobody holds it; read: no writer holds it) and that the bodies of the Go
+  methods are the micro-steps of `Model/C17Locks.lean` between the lock calls the extractor found; the Go
+  memory model below that (a data race would void it — the race detector looks for one on every run).
 -/
 import Manticore.Lemmas.C17
 import Manticore.Gen.NbtnsLocks
+import Manticore.Props.C17Locks
 namespace Manticore.C17
 open Manticore
 
@@ -580,6 +585,67 @@ theorem linz_iff (evs : List Ev) : linz evs = true ↔ Linearizable evs := by
   unfold linz Linearizable
   rw [← lin_iff_order]
   exact ⟨search_sound _ _ _, search_complete _ _ _ (Nat.le_refl _)⟩
+
+/-! ### 6. every interleaving under the lock discipline behaves like the atomic map -/
+
+private theorem outsRel_no_panic : ∀ (os : List Out) (ts : List Spec.Out), OutsRel os ts → ∀ o ∈ os, o ≠ .panic
+  | [], [], _, o, ho => by cases ho
+  | o' :: os, t :: ts, h, o, ho => by
+    rcases List.mem_cons.mp ho with rfl | ho
+    · intro e; rw [e] at h; exact (by cases t <;> exact h.1 : False)
+    · exact outsRel_no_panic os ts h.2 o ho
+  | [], _ :: _, h, _, _ => by cases h
+  | _ :: _, [], h, _, _ => by cases h
+
+open Manticore.Gen.NbtnsLocks in
+/-- **The name table is linearizable under the lock discipline of the source, for every interleaving.**
+    (1) The source keeps the discipline the machine assumes: every function touching `names` is a method that
+    locks first, defers the matching unlock and never unlocks early (regenerated facts), and the lock kind
+    of each method is the mode of its critical section in the model (`Lock` = writer, `RLock` = reader).
+    (2) Then for ANY number of threads calling ANY sequences of the six methods on a fresh table, and ANY
+    complete schedule of the individual micro-steps of their bodies (RWMutex enabling conditions only; no
+    fairness assumed): the concurrent history — invocation at the acquire, response at the release — is
+    `Linearizable` in the sense of Herlihy–Wing w.r.t. the sequential model; explicitly, some order of all
+    the calls that respects real time is a sequential history `ops` such that the final table is
+    `run init ops`, satisfies the ownership invariant, abstracts to the atomic map after `ops`, every call
+    returned what the atomic map returns (`OutsRel`), and no call panicked. -/
+theorem name_table_linearizable_under_lock_discipline :
+    ((∀ m ∈ methods, m.touchesNames = true →
+        m.isMethod = true ∧ m.locksFirst = true ∧ m.defersUnlock = true ∧ m.noEarlyUnlock = true) ∧
+     (∀ op : Op, (methods.find? (fun m => m.name == op.method)).map (·.lockKind) =
+        some (match (critical op).mode with | .read => LockKind.rlock | .write => LockKind.lock))) ∧
+    ∀ (threads : List (List Op)) (sched : List Nat), (runTable threads sched).Complete →
+      Linearizable (tableEvents threads sched) ∧
+      ∃ order : List RWLock.CallId,
+        order.Perm (RWLock.allCalls (tableProgram threads)) ∧
+        order.Pairwise (fun a b => ¬ (runTable threads sched).relTime b < (runTable threads sched).acqTime a) ∧
+        (runTable threads sched).shared = run init (order.map (opAt threads)) ∧
+        order.map (runTable threads sched).resultOf = (outputs init (order.map (opAt threads))).map some ∧
+        Inv (runTable threads sched).shared ∧
+        abs (runTable threads sched).shared = Spec.run Spec.init (order.map (opAt threads)) ∧
+        OutsRel (outputs init (order.map (opAt threads))) (Spec.outputs Spec.init (order.map (opAt threads))) ∧
+        (∀ id ∈ order, (runTable threads sched).resultOf id ≠ some .panic) := by
+  refine ⟨⟨lock_discipline, critical_section_modes_are_the_source_lock_kinds⟩, ?_⟩
+  intro threads sched hc
+  obtain ⟨order, hperm, hst, hres, hrt, _⟩ := name_table_interleavings_are_sequential_histories threads sched hc
+  have href := refines_history (order.map (opAt threads))
+  have hget : order.map (fun id => ((runTable threads sched).resultOf id).getD .panic) =
+      outputs init (order.map (opAt threads)) := by
+    have := congrArg (List.map (fun o : Option Out => o.getD .panic)) hres
+    simpa [List.map_map, Function.comp_def] using this
+  refine ⟨⟨order.map (evOf threads (runTable threads sched)), hperm.map _, ?_, ?_⟩,
+    order, hperm, hrt, hst, hres, ?_, ?_, href.2, ?_⟩
+  · exact List.pairwise_map.mpr hrt
+  · simp only [List.map_map, Function.comp_def, evOf]
+    exact hget.symm
+  · rw [hst]; exact inv_reachable _
+  · rw [hst]; exact href.1
+  · intro id hid e
+    have hmem : some Out.panic ∈ (outputs init (order.map (opAt threads))).map some := by
+      rw [← hres, ← e]; exact List.mem_map.mpr ⟨id, hid, rfl⟩
+    obtain ⟨o, ho, ho'⟩ := List.mem_map.mp hmem
+    cases ho'
+    exact outsRel_no_panic _ _ href.2 _ ho rfl
 
 /-! ### non-vacuity -/
 
